@@ -120,6 +120,10 @@ class Oracle:
             if self.any_call:
                 return ("opaque", str(n))
             raise Unknown("call of " + str(n))
+        if kind == "new":
+            if self.any_call:
+                return ("opaque", "new")
+            raise Unknown("new expression")
         if kind == "param":
             if t[1] in self.params:
                 return self.params[t[1]]
